@@ -16,7 +16,7 @@ from __future__ import annotations
 import ast
 import re
 
-from ..flow import Defs, Scope, cond, guards, iterations, nnf, rejections
+from ..flow import reach_rejections, Defs, Scope, cond, guards, iterations, nnf, rejections
 from ..loader import AnalysisError, FuncInfo, dotted, norm, walk_no_nested
 from ..report import Ctx
 from ..selftest import Mutant
@@ -173,16 +173,19 @@ def rule_shape_path(ctx: Ctx) -> None:  # noqa: C901, PLR0915
     shape = ms.methods["shape"]
     cfg = ctx.cfg(shape)
     d = Defs(shape)
-    val = set(cfg.nodes(lambda s: not isinstance(s, (ast.For, ast.If)) and any(isinstance(c, ast.Call) and dotted(c.func) == "_validate_shapes" for c in ast.walk(s))))
+    # the shape validator is found by what it does: the callee of MapSpec.shape that reaches ArraySpec.validate
+    av_q = asp.methods["validate"].qualname
+    val_sites = [s_ for s_ in ctx.cg.sites.get(shape.qualname, []) if any(c.qualname == av_q or av_q in ctx.cg.reachable(c.qualname) for c in s_.callees)]
+    val = {n for n in (cfg.node_containing(s_.node) for s_ in val_sites) if n is not None}
     loops = cfg.nodes(lambda s: isinstance(s, ast.For))
     if loops:
         ok = bool(val) and all(any(cfg.dominates(v, lp) for v in val) for lp in loops)
-        ctx.tri("5-shape-path", shape, shape.node, ok, not val, "ranks are validated before any dimension is read", "MapSpec.shape reads dimensions without calling _validate_shapes first: a shape of the wrong rank is indexed silently",
-                "_validate_shapes does not dominate the loop", key="validate-first")
-    vs = P.func(f"{MOD}._validate_shapes")
-    n_r = len([r for r in rejections(ctx.cfg(vs), vs.node) if not r["dead"]])
-    calls_validate = any(isinstance(c, ast.Call) and isinstance(c.func, ast.Attribute) and c.func.attr == "validate" for c in ast.walk(vs.node))
-    ctx.tri("5-shape-path", vs, vs.node, n_r >= 3 and calls_validate, n_r == 0, "extra / missing inputs and wrong ranks raise", "_validate_shapes never raises", f"{n_r} rejections", key="validate-raises")
+        ctx.tri("5-shape-path", shape, shape.node, ok, not val, "ranks are validated before any dimension is read", "MapSpec.shape reads dimensions without validating the ranks of the given shapes first (ArraySpec.validate is not reached): a shape of the wrong rank is indexed silently",
+                "the rank validation does not dominate the loop", key="validate-first")
+    if val_sites:
+        vs = [c for c in val_sites[0].callees if c.qualname != av_q] or [shape]
+        n_r = len(reach_rejections(ctx, vs[0]))
+        ctx.tri("5-shape-path", vs[0], vs[0].node, n_r >= 3, n_r == 0, "extra / missing inputs and wrong ranks raise", f"{vs[0].name} never raises", f"{n_r} rejections", key="validate-raises")
     av = asp.methods["validate"]
     rj = [r for r in rejections(ctx.cfg(av), av.node, Defs(av)) if not r["dead"]]
     rank_rej = [r for r in rj if any("len(shape)" in c and "rank" in c for c in r["conds"])]
@@ -261,7 +264,7 @@ def rule_one_key(ctx: Ctx) -> None:  # noqa: C901, PLR0915
     for name in ("output_key", "input_keys"):
         f = ms.methods[name]
         used[name] = {_l(dotted(c.func)) for _f, c in Scope(ctx, f, depth=1).calls(*DECOMPOSERS) if _f is f}
-        rj = [r for r in rejections(ctx.cfg(f), f.node, Defs(f)) if not r["dead"]]
+        rj = reach_rejections(ctx, f)
         rank = [r for r in rj if any("len(shape)" in c for c in r["conds"])]
         ctx.tri("6-one-key", f, f.node, bool(rank), not rj, f"{name} rejects a shape of the wrong rank", f"{name} never raises: a shape of the wrong rank is decomposed silently", "rank test not recognised", key=f"{name} rank")
     same = used["output_key"] == used["input_keys"] == {"_shape_to_key"}
